@@ -38,7 +38,7 @@ Section Channel.
     | PAdded st =>
         exists g, mc x = mkm p Signing (stx p st (Some (sigof p st)) (Some g)) c /\ succ c st
                   /\ state_encodable st = true /\ sig_ok (other p) st g /\ In st (flog x)
-    | PFail st r => exists o1 o2, mc x = mkm p Signing (stx p st o1 o2) c /\ st_final (tx_st c) = false
+    | PFail st r => exists o1, mc x = mkm p Signing (stx p st o1 None) c /\ st_final (tx_st c) = false
     | RStaged st g => mc x = mkm p Signing (stx p st None None) c /\ succ c st /\ sig_ok (other p) st g
     | RAdded st => exists g, mc x = mkm p Signing (stx p st None (Some g)) c /\ succ c st /\ sig_ok (other p) st g
     | RSigned st g' =>
@@ -386,7 +386,7 @@ Section Channel.
       + rewrite C. reflexivity.
       + rewrite C. apply rview_same. reflexivity.
       + exists c. split; [exact F|]. split; [exact V|]. split; [exact Hin|].
-        unfold LIc. cbn [ctl mc]. exists None, None. split; [reflexivity|]. apply (propok_succ p c s0 PO).
+        unfold LIc. cbn [ctl mc]. exists None. split; [reflexivity|]. apply (propok_succ p c s0 PO).
   Qed.
 
   (* ---------- discard ---------- *)
@@ -394,7 +394,7 @@ Section Channel.
   Proof.
     intros G H. unfold lstep in H. cbn [label_party] in H.
     destruct (ctl (getp s p)) eqn:C; try discriminate H.
-    - li_open G p c F V Hin L C. destruct L as (o1 & o2 & M & Fin). rewrite M in H.
+    - li_open G p c F V Hin L C. destruct L as (o1 & M & Fin). rewrite M in H.
       rewrite op_discard in H. cbn [fst] in H. injection H as <-.
       apply GI_finish. apply frame_upd; auto.
       + rewrite M. reflexivity.
@@ -777,7 +777,7 @@ Section Channel.
     { apply (eff_other s s' p Ho). rewrite Hn, DQ'. reflexivity. }
     apply (GI_intro s s' p G Ho).
     - rewrite Hp. exists c. split; [exact F|]. split; [exact V|]. split; [exact Hin|].
-      unfold LIc. cbn [ctl mc]. eexists; eexists. split; [exact M|]. apply (propok_succ p c s0 PO).
+      unfold LIc. cbn [ctl mc]. eexists. split; [exact M|]. apply (propok_succ p c s0 PO).
     - unfold Dir. rewrite Hp, Ho, Hn, DP'. cbn [ctl]. auto.
     - apply (dir_other_rview s s' p Ho); [rewrite Hn; exact DQ'| | |apply (gi_dir s G)].
       + rewrite Hp, C. reflexivity.
@@ -822,5 +822,394 @@ Section Channel.
     - apply (AG_same s s'); [apply (flogs_same s s' p Ho); rewrite Hp; reflexivity| |
                              apply (pending_keep s s' p Ho); rewrite C; discriminate|apply (gi_ag s G)].
       destruct p; [exact Hep|exact Heq].
+  Qed.
+
+  Lemma wrap_succ v : v < two64 - 1 -> wrap64 (v + 1) = v + 1.
+  Proof. intro H. unfold wrap64. apply N.mod_small. unfold two64 in H. lia. Qed.
+  Lemma no_self_succ c st : succ c st -> tx_st c = st -> st_ver st < two64 -> False.
+  Proof.
+    intros [_ E] T B. rewrite T in E. unfold wrap64 in E. unfold two64 in B.
+    destruct (N.eq_dec (st_ver st + 1) 18446744073709551616) as [Q|Q].
+    - rewrite Q, N.mod_same in E by discriminate. lia.
+    - rewrite N.mod_small in E by lia. lia.
+  Qed.
+
+  Lemma in_flogs s p x : In x (flog (getp s p)) -> In x (flogs s).
+  Proof. unfold flogs. intro H. apply in_or_app. destruct p; auto. Qed.
+  Lemma flogs_add s s' p st :
+    getp s' (other p) = getp s (other p) -> flog (getp s' p) = st :: flog (getp s p) ->
+    forall x, In x (flogs s') <-> x = st \/ In x (flogs s).
+  Proof.
+    unfold flogs. destruct p; cbn [getp other]; intros -> -> x; rewrite !in_app_iff; cbn [In]; intuition congruence.
+  Qed.
+
+  (* ---------- responder: sign (the staged transaction becomes fully signed) ---------- *)
+  Lemma gi_LRSign s p s' : GI s -> lstep s (LRSign p) = Some s' -> GI s'.
+  Proof.
+    intros G H. unfold lstep in H. cbn [label_party] in H.
+    destruct (ctl (getp s p)) eqn:C; try discriminate H.
+    destruct (resp_handling s p G) as (st & CY & DY & HY); [rewrite C; reflexivity|].
+    rewrite C in HY. cbn [handling] in HY. subst s0.
+    li_open G p c F V Hin L C. destruct L as (g & M & SU & SO).
+    pose proof (sig_ok_encodable k0 k1 _ _ _ SO) as E.
+    rewrite M in H. rewrite (op_sig P k0 k1 HP) in H by exact E. injection H as <-.
+    pose proof (gi_dir s G p) as D. unfold Dir in D. rewrite C in D. destruct D as [D0 NB].
+    set (m' := mkm p Signing (stx p st (Some (sigof p st)) (Some g)) c).
+    set (s' := upd_full s p m' (RSigned st (sigof p st))).
+    assert (Ho : getp s' (other p) = getp s (other p)) by apply getp_updf_other.
+    assert (Hp : getp s' p = mkParty m' (RSigned st (sigof p st)) (st :: flog (getp s p))).
+    { unfold s'. rewrite getp_updf_same. unfold note_full, m'. cbn [staging mkm stx tx_sigs tx_st].
+      rewrite all_some_sigs2. reflexivity. }
+    assert (Hn : net s' = net s) by apply net_updf.
+    assert (Hep : eff s' p = eff s p) by (unfold eff, cur_state; rewrite Hp, C, M; reflexivity).
+    assert (Heq : eff s' (other p) = eff s (other p)) by (apply (eff_other s s' p Ho); rewrite Hn; reflexivity).
+    apply (GI_intro s s' p G Ho).
+    - rewrite Hp. exists c. split; [exact F|]. split; [exact V|]. split; [right; exact Hin|].
+      unfold LIc. cbn [ctl mc flog]. exists g. split; [reflexivity|]. split; [reflexivity|].
+      split; [exact SU|]. split; [exact SO|left; reflexivity].
+    - unfold Dir. rewrite Hp, Ho, Hn. cbn [ctl]. auto.
+    - apply (dir_other_frame s s' p Ho); [rewrite Hn; reflexivity| | | |apply (gi_dir s G)].
+      + rewrite Hp, C. reflexivity.
+      + intro st'. rewrite Hp, C. cbn [ctl handling]. auto.
+      + intros st' [_ [CM|[CM _]]]; rewrite C in CM; discriminate CM.
+    - rewrite Heq, Hep. apply (sync_sym s p (gi_sync s G)).
+    - (* agreement: the new fully signed state has the next version, which no logged state has *)
+      intro N.
+      pose proof (flogs_add s s' p st Ho (f_equal flog Hp)) as FA. cbn [flog] in FA.
+      assert (N0 : nowrap s) by (intros x Hx; apply N, FA; auto).
+      destruct (gi_ag s G N0) as (E0 & HE & IE & B & U).
+      assert (EP : eff s' PA = Some E0) by (rewrite <- HE; destruct p; [exact Hep|exact Heq]).
+      assert (CE : tx_st c = E0).
+      { pose proof (sync_sym s p (gi_sync s G)) as Sy.
+        assert (X : eff s p = Some (tx_st c)) by (unfold eff, cur_state; rewrite C, M; reflexivity).
+        assert (Y : eff s p = Some E0) by (destruct p; [exact HE|rewrite Sy; exact HE]).
+        congruence. }
+      assert (VS : st_ver st = st_ver E0 + 1).
+      { destruct SU as [_ VS]. rewrite VS, CE. apply wrap_succ. apply N, FA. auto. }
+      assert (NP : forall x, ~ pending s x).
+      { intros x (X & gx & EX). destruct (pid_cases p X) as [->| ->]; congruence. }
+      exists E0. split; [exact EP|]. split; [apply FA; auto|]. split.
+      + intros x Hx. apply FA in Hx. destruct Hx as [->|Hx].
+        * right. split; [|exact VS]. exists p, (sigof p st). rewrite Hp. reflexivity.
+        * destruct (B x Hx) as [Lx|[Px _]]; [left; exact Lx|elim (NP _ Px)].
+      + assert (Old : forall x, In x (flogs s) -> st_ver x <= st_ver E0).
+        { intros x Hx. destruct (B x Hx) as [Lx|[Px _]]; [exact Lx|elim (NP _ Px)]. }
+        intros x y Hx Hy EV. apply FA in Hx. apply FA in Hy.
+        destruct Hx as [->|Hx], Hy as [->|Hy]; auto.
+        * pose proof (Old _ Hy). lia.
+        * pose proof (Old _ Hx). lia.
+  Qed.
+
+  (* ---------- responder: send the acceptance (both parties are now bound to the new state) ---------- *)
+  Lemma gi_LRSendAcc s p s' : GI s -> lstep s (LRSendAcc p) = Some s' -> GI s'.
+  Proof.
+    intros G H. unfold lstep in H. cbn [label_party] in H.
+    destruct (ctl (getp s p)) eqn:C; try discriminate H. injection H as <-.
+    destruct (resp_handling s p G) as (st & CY & DY & HY); [rewrite C; reflexivity|].
+    rewrite C in HY. cbn [handling] in HY. subst s0.
+    li_open G p c F V Hin L C. destruct L as (g0 & M & -> & SU & SO & Hst).
+    pose proof (gi_dir s G p) as D. unfold Dir in D. rewrite C in D. destruct D as [D0 _].
+    set (s' := with_net _ _).
+    assert (Ho : getp s' (other p) = getp s (other p)) by (unfold s'; rewrite getp_with_net; apply getp_upd_other).
+    assert (Hp : getp s' p = mkParty (mc (getp s p)) (RSent st) (flog (getp s p)))
+      by (unfold s'; rewrite getp_with_net; apply getp_upd_same).
+    assert (Hn : net s' = MAcc p (st_ver st) (sigof p st) :: net s) by reflexivity.
+    assert (Dp : dmsgs p (net s') = []).
+    { rewrite Hn, dmsgs_cons. cbn [in_dir]. rewrite pid_eqb_other. exact D0. }
+    assert (Dq : dmsgs (other p) (net s') = [MAcc p (st_ver st) (sigof p st)]).
+    { rewrite Hn, dmsgs_cons. cbn [in_dir]. rewrite other_other, pid_eqb_refl, DY. reflexivity. }
+    assert (Hep : eff s' p = Some st) by (unfold eff; rewrite Hp; reflexivity).
+    assert (Heq : eff s' (other p) = Some st).
+    { unfold eff. rewrite Ho, CY, Dq. reflexivity. }
+    apply (GI_intro s s' p G Ho).
+    - rewrite Hp. exists c. split; [exact F|]. split; [exact V|]. split; [exact Hin|].
+      unfold LIc. cbn [ctl mc flog]. exists g0. auto.
+    - unfold Dir. rewrite Hp, Ho, Dp, CY. cbn [ctl]. auto.
+    - unfold Dir. rewrite other_other, Hp, Ho, Dq, CY. cbn [ctl]. right. right. left.
+      split; [reflexivity|]. split; [exact Hst|left; reflexivity].
+    - rewrite Heq, Hep. reflexivity.
+    - intro N.
+      pose proof (flogs_same s s' p Ho (f_equal flog Hp)) as FS.
+      assert (N0 : nowrap s) by (intros x Hx; apply N, FS, Hx).
+      destruct (gi_ag s G N0) as (E0 & HE & IE & B & U).
+      assert (CE : tx_st c = E0).
+      { pose proof (sync_sym s p (gi_sync s G)) as Sy.
+        assert (X : eff s p = Some (tx_st c)) by (unfold eff, cur_state; rewrite C, M; reflexivity).
+        assert (Y : eff s p = Some E0) by (destruct p; [exact HE|rewrite Sy; exact HE]).
+        congruence. }
+      assert (VS : st_ver st = st_ver E0 + 1).
+      { destruct SU as [_ VS]. rewrite VS, CE. apply wrap_succ. apply N0. exact IE. }
+      exists st. split; [destruct p; [exact Hep|exact Heq]|]. split; [apply FS, (in_flogs s p), Hst|]. split.
+      + intros x Hx. apply FS in Hx. left. destruct (B x Hx) as [Lx|[_ Vx]]; lia.
+      + intros x y Hx Hy. apply U; apply FS; assumption.
+  Qed.
+
+  (* ---------- enabling ---------- *)
+  Lemma enabled_LI p c st g fl :
+    succ c st -> sig_ok (other p) st g -> In st fl -> st_ver (tx_st c) < two64 ->
+    LI p (mkParty (mkm p (after st) None (mkTx st (sigs2 p (Some (sigof p st)) (Some g)))) Idle fl).
+  Proof.
+    intros SU SO I V. exists (mkTx st (sigs2 p (Some (sigof p st)) (Some g))).
+    split; [apply fs2_enabled; [eapply sig_ok_encodable; exact SO|exact SO]|].
+    split; [apply (succ_ver_lt _ _ SU)|]. split; [exact I|].
+    unfold LIc, rest. cbn [ctl mc tx_st]. unfold after. destruct (st_final st); auto.
+  Qed.
+
+  Lemma gi_LREnable s p s' : GI s -> lstep s (LREnable p) = Some s' -> GI s'.
+  Proof.
+    intros G H. unfold lstep in H. cbn [label_party] in H.
+    destruct (ctl (getp s p)) eqn:C; try discriminate H.
+    li_open G p c F V Hin L C. destruct L as (g & M & SU & SO & Hst).
+    rewrite M in H. rewrite (op_enable P) in H. injection H as <-. cbn [on_out].
+    pose proof (gi_dir s G p) as D. unfold Dir in D. rewrite C in D. destruct D as [D0 NB].
+    set (m' := mkm p (after s0) None _).
+    set (s' := upd s p m' Idle).
+    assert (Ho : getp s' (other p) = getp s (other p)) by apply getp_upd_other.
+    assert (Hp : getp s' p = mkParty m' Idle (flog (getp s p))) by apply getp_upd_same.
+    assert (Hn : net s' = net s) by apply net_upd.
+    assert (Hep : eff s' p = eff s p) by (unfold eff, cur_state; rewrite Hp, C; reflexivity).
+    assert (Heq : eff s' (other p) = eff s (other p)) by (apply (eff_other s s' p Ho); rewrite Hn; reflexivity).
+    apply (GI_intro s s' p G Ho).
+    - rewrite Hp. apply (enabled_LI p c); auto.
+    - unfold Dir. rewrite Hp, Ho, Hn. cbn [ctl]. auto.
+    - apply (dir_other_frame s s' p Ho); [rewrite Hn; reflexivity| | | |apply (gi_dir s G)].
+      + rewrite Hp, C. reflexivity.
+      + intro st'. rewrite C. cbn [handling]. tauto.
+      + intros st' [I [CM|[CM _]]]; rewrite C in CM; [|discriminate CM]. injection CM as <-.
+        rewrite Hp. split; [exact I|]. right. split; reflexivity.
+    - rewrite Heq, Hep. apply (sync_sym s p (gi_sync s G)).
+    - apply (AG_same s s'); [apply (flogs_same s s' p Ho); rewrite Hp; reflexivity| |
+                             apply (pending_keep s s' p Ho); rewrite C; discriminate|apply (gi_ag s G)].
+      destruct p; [exact Hep|exact Heq].
+  Qed.
+
+  (* ---------- proposer: add the peer's signature ---------- *)
+  Lemma gi_LPAddSig s p s' : GI s -> lstep s (LPAddSig p) = Some s' -> GI s'.
+  Proof.
+    intros G H. unfold lstep in H. cbn [label_party] in H.
+    destruct (ctl (getp s p)) eqn:C; try discriminate H.
+    li_open G p c F V Hin L C. destruct L as (M & PO & E).
+    pose proof (gi_dir s G p) as D. unfold Dir in D. rewrite C in D. destruct D as (D0 & -> & CM).
+    assert (SO : sig_ok (other p) s0 (sigof (other p) s0)) by (apply sigof_ok; exact E).
+    rewrite M in H. rewrite (op_addsig P k0 k1 HP) in H by exact SO. injection H as <-. cbn [on_out].
+    set (m' := mkm p Signing (stx p s0 (Some (sigof p s0)) (Some (sigof (other p) s0))) c).
+    set (s' := upd_full s p m' (PAdded s0)).
+    assert (Ho : getp s' (other p) = getp s (other p)) by apply getp_updf_other.
+    assert (Hp : getp s' p = mkParty m' (PAdded s0) (s0 :: flog (getp s p))).
+    { unfold s'. rewrite getp_updf_same. unfold note_full, m'. cbn [staging mkm stx tx_sigs tx_st].
+      rewrite all_some_sigs2. reflexivity. }
+    assert (Hn : net s' = net s) by apply net_updf.
+    assert (Hep : eff s' p = eff s p) by (unfold eff, cur_state; rewrite Hp, C; reflexivity).
+    assert (Heq : eff s' (other p) = eff s (other p)) by (apply (eff_other s s' p Ho); rewrite Hn; reflexivity).
+    apply (GI_intro s s' p G Ho).
+    - rewrite Hp. exists c. split; [exact F|]. split; [exact V|]. split; [right; exact Hin|].
+      unfold LIc. cbn [ctl mc flog]. exists (sigof (other p) s0). split; [reflexivity|].
+      split; [apply (propok_succ p c s0 PO)|]. split; [exact E|]. split; [exact SO|left; reflexivity].
+    - unfold Dir. rewrite Hp, Ho, Hn. cbn [ctl]. auto.
+    - apply (dir_other_frame s s' p Ho); [rewrite Hn; reflexivity| | | |apply (gi_dir s G)].
+      + rewrite Hp, C. reflexivity.
+      + intro st'. rewrite C. cbn [handling]. tauto.
+      + intros st' [I [CM'|[_ CM']]]; rewrite ?C in CM'; [discriminate CM'|].
+        rewrite Hp. split; [right; exact I|]. right. split; [reflexivity|]. cbn [mc]. unfold m'.
+        rewrite M in CM'. exact CM'.
+    - rewrite Heq, Hep. apply (sync_sym s p (gi_sync s G)).
+    - apply (AG_same s s'); [| |apply (pending_keep s s' p Ho); rewrite C; discriminate|apply (gi_ag s G)].
+      + intro x. rewrite (flogs_add s s' p s0 Ho (f_equal flog Hp)). split; [|auto].
+        intros [->|Hx]; [|exact Hx]. apply (in_flogs s (other p)). apply CM.
+      + destruct p; [exact Hep|exact Heq].
+  Qed.
+
+  (* ---------- proposer: enable (Channel.Update returns nil) ---------- *)
+  Lemma gi_LPEnable s p s' : GI s -> lstep s (LPEnable p) = Some s' -> GI s'.
+  Proof.
+    intros G H. unfold lstep in H. cbn [label_party] in H.
+    destruct (ctl (getp s p)) eqn:C; try discriminate H.
+    li_open G p c F V Hin L C. destruct L as (g & M & SU & E & SO & Hst).
+    rewrite M in H. rewrite (op_enable P) in H. injection H as <-.
+    pose proof (gi_dir s G p) as D. unfold Dir in D. rewrite C in D. destruct D as [D0 CM].
+    apply GI_finish.
+    set (m' := mkm p (after s0) None _).
+    set (s' := upd s p m' Idle).
+    assert (Ho : getp s' (other p) = getp s (other p)) by apply getp_upd_other.
+    assert (Hp : getp s' p = mkParty m' Idle (flog (getp s p))) by apply getp_upd_same.
+    assert (Hn : net s' = net s) by apply net_upd.
+    assert (Hep : eff s' p = eff s p) by (unfold eff, cur_state; rewrite Hp, C; reflexivity).
+    assert (Heq : eff s' (other p) = eff s (other p)) by (apply (eff_other s s' p Ho); rewrite Hn; reflexivity).
+    assert (EP : eff s p = Some s0) by (unfold eff; rewrite C; reflexivity).
+    pose proof (sync_sym s p (gi_sync s G)) as Sy. rewrite EP in Sy.
+    assert (NB : resp_busy (ctl (getp s (other p))) = false).
+    { destruct CM as [_ [CQ|[CQ _]]]; [rewrite CQ; reflexivity|].
+      destruct (ctl (getp s (other p))); cbn in CQ |- *; congruence. }
+    apply (GI_intro s s' p G Ho).
+    - rewrite Hp. apply (enabled_LI p c); auto.
+    - unfold Dir. rewrite Hp, Ho, Hn. cbn [ctl]. auto.
+    - (* the peer cannot be waiting for a response of p: it holds or awaits p's state s0 *)
+      pose proof (gi_dir s G (other p)) as DQ. unfold Dir in DQ |- *.
+      rewrite other_other in DQ |- *. rewrite Ho, Hp, Hn. cbn [ctl resp_busy is_resp].
+      rewrite C in DQ. cbn [resp_busy is_resp handling] in DQ.
+      destruct (gi_li s G (other p)) as (cq & Fq & Vq & Hinq & Lq). unfold LIc in Lq.
+      assert (CQ : cur_state s (other p) = Some (tx_st cq)).
+      { unfold cur_state. rewrite (LIc_current _ _ _ Lq). reflexivity. }
+      unfold eff in Sy. rewrite CQ in Sy.
+      destruct (ctl (getp s (other p))) eqn:CQ'; try exact DQ.
+      + (* PWait st': an acceptance from p cannot be in flight *)
+        destruct DQ as [DQ|[[_ []]|[[DQ _]|DQ]]]; [left; exact DQ| |right; right; right; exact DQ].
+        rewrite DQ in Sy. cbn [has_acc existsb] in Sy. injection Sy as <-.
+        destruct Lq as (_ & PO & _). exfalso.
+        destruct CM as [_ [CQ2|[_ CQ2]]]; [congruence|].
+        apply (no_self_succ cq s0 (propok_succ _ _ _ PO)).
+        * unfold cur_state in CQ. congruence.
+        * apply (succ_ver_lt _ _ (propok_succ _ _ _ PO)).
+      + exfalso. injection Sy as <-. destruct Lq as (_ & PO & _).
+        destruct CM as [_ [CQ2|[_ CQ2]]]; [congruence|].
+        apply (no_self_succ cq s0 (propok_succ _ _ _ PO)).
+        * unfold cur_state in CQ. congruence.
+        * apply (succ_ver_lt _ _ (propok_succ _ _ _ PO)).
+      + exfalso. injection Sy as <-. destruct Lq as (gq & Mq & SUq & _).
+        destruct CM as [_ [CQ2|[_ CQ2]]]; [congruence|].
+        apply (no_self_succ cq s0 SUq).
+        * unfold cur_state in CQ. congruence.
+        * apply (succ_ver_lt _ _ SUq).
+    - rewrite Heq, Hep. apply (sync_sym s p (gi_sync s G)).
+    - apply (AG_same s s'); [apply (flogs_same s s' p Ho); rewrite Hp; reflexivity| |
+                             apply (pending_keep s s' p Ho); rewrite C; discriminate|apply (gi_ag s G)].
+      destruct p; [exact Hep|exact Heq].
+  Qed.
+
+  (* ---------- every step preserves the invariant ---------- *)
+  Theorem GI_step s l s' : GI s -> lstep s l = Some s' -> GI s'.
+  Proof.
+    destruct l.
+    - apply gi_LStage.
+    - apply gi_LStageBad.
+    - apply gi_LSign.
+    - apply gi_LSendReq.
+    - apply gi_LDeliver.
+    - apply gi_LCheck.
+    - apply gi_LDecide.
+    - apply gi_LRStage.
+    - apply gi_LRAddSig.
+    - apply gi_LRSign.
+    - apply gi_LRSendAcc.
+    - apply gi_LREnable.
+    - apply gi_LRSendRej.
+    - apply gi_LRecvAcc.
+    - apply gi_LRecvRej.
+    - apply gi_LPAddSig.
+    - apply gi_LPEnable.
+    - apply gi_LDiscard.
+  Qed.
+
+  (* ---------- initial state and reachability ---------- *)
+  Definition good_init (t : tx) : Prop :=
+    fs2 t /\ st_ver (tx_st t) < two64 /\ st_final (tx_st t) = false.
+  Definition reachable (t : tx) (s : sys) : Prop := exists ls, lrun (init_sys P t) ls = Some s.
+
+  Lemma GI_init t : good_init t -> GI (init_sys P t).
+  Proof.
+    intros (F & V & Fin). split.
+    - intro p. exists t. split; [exact F|]. split; [exact V|]. split; [destruct p; left; reflexivity|].
+      unfold LIc, rest. destruct p; cbn; left; auto.
+    - intro Y. unfold Dir. destruct Y; cbn; auto.
+    - reflexivity.
+    - intros _. exists (tx_st t). split; [reflexivity|]. split; [left; reflexivity|]. split.
+      + intros x Hx. left. destruct Hx as [<-|[<-|[]]]; lia.
+      + intros x y Hx Hy _. destruct Hx as [<-|[<-|[]]], Hy as [<-|[<-|[]]]; reflexivity.
+  Qed.
+  Lemma GI_run s ls s' : GI s -> lrun s ls = Some s' -> GI s'.
+  Proof.
+    revert s; induction ls as [|l ls IH]; intros s G H; cbn in H.
+    - injection H as <-. exact G.
+    - destruct (lstep s l) as [s1|] eqn:E; [|discriminate H]. apply (IH s1); [|exact H].
+      apply (GI_step s l s1 G E).
+  Qed.
+  Lemma GI_reachable t s : good_init t -> reachable t s -> GI s.
+  Proof. intros I (ls & R). apply (GI_run _ ls s (GI_init t I) R). Qed.
+
+  (* ---------- C06: the current transaction of both parties is always fully signed ---------- *)
+  Lemma LIc_shape p x c : LIc p x c -> exists f stg, mc x = mkm p f stg c.
+  Proof.
+    unfold LIc, rest. destruct (ctl x); intro H;
+      repeat match goal with
+             | H : exists _, _ |- _ => destruct H as [? H]
+             | H : _ /\ _ |- _ => destruct H as [H ?]
+             | H : _ \/ _ |- _ => destruct H as [H|H]
+             | H : False |- _ => elim H
+             | H : mc x = _ |- _ => rewrite H; eexists; eexists; reflexivity
+             end.
+  Qed.
+  Lemma fully_signed_reachable t s p :
+    good_init t -> reachable t s ->
+    exists c, current (mc (getp s p)) = Some c /\ fully_signed (mc (getp s p)) c.
+  Proof.
+    intros I R. destruct (gi_li s (GI_reachable t s I R) p) as (c & F & _ & _ & L).
+    exists c. split; [apply (LIc_current p _ c L)|].
+    destruct (LIc_shape p _ c L) as (f & stg & ->). apply (fs2_fully_signed P k0 k1 HP). exact F.
+  Qed.
+
+  (* ---------- C06: versions differ by at most one ---------- *)
+  Lemma eff_cur s p :
+    GI s -> exists c, current (mc (getp s p)) = Some c /\ st_ver (tx_st c) < two64 /\
+                      (eff s p = Some (tx_st c) \/ exists st, eff s p = Some st /\ succ c st).
+  Proof.
+    intro G. destruct (gi_li s G p) as (c & _ & V & _ & L). exists c.
+    pose proof (LIc_current p _ c L) as Cur. split; [exact Cur|]. split; [exact V|].
+    unfold eff, cur_state. rewrite Cur. cbn [option_map]. unfold LIc in L.
+    destruct (ctl (getp s p)); auto.
+    - destruct (has_acc _); auto. right. exists s0. split; [reflexivity|]. apply (propok_succ p c s0). apply L.
+    - right. exists s0. split; [reflexivity|]. apply (propok_succ p c s0). apply L.
+    - right. exists s0. split; [reflexivity|]. destruct L as (g & _ & SU & _). exact SU.
+    - right. exists s0. split; [reflexivity|]. destruct L as (g & _ & SU & _). exact SU.
+  Qed.
+  Lemma wrap_inj a b : a < two64 -> b < two64 -> wrap64 (a + 1) = wrap64 (b + 1) -> a = b.
+  Proof.
+    unfold wrap64, two64. intros A B E.
+    destruct (N.eq_dec (a + 1) 18446744073709551616) as [Qa|Qa], (N.eq_dec (b + 1) 18446744073709551616) as [Qb|Qb].
+    - lia.
+    - rewrite Qa, N.mod_same in E by discriminate. rewrite N.mod_small in E by lia. lia.
+    - rewrite Qb, N.mod_same in E by discriminate. rewrite N.mod_small in E by lia. lia.
+    - rewrite !N.mod_small in E by lia. lia.
+  Qed.
+  Lemma versions_close_GI s :
+    GI s ->
+    cur_ver s PA = cur_ver s PB \/ cur_ver s PA = wrap64 (cur_ver s PB + 1)
+    \/ cur_ver s PB = wrap64 (cur_ver s PA + 1).
+  Proof.
+    intro G. destruct (eff_cur s PA G) as (ca & Ca & Va & Ea), (eff_cur s PB G) as (cb & Cb & Vb & Eb).
+    pose proof (gi_sync s G) as Sy.
+    unfold cur_ver, cur_state. cbn [getp] in *. rewrite Ca, Cb. cbn [option_map].
+    destruct Ea as [Ea|(sa & Ea & [_ Sa])], Eb as [Eb|(sb & Eb & [_ Sb])]; rewrite Ea, Eb in Sy; injection Sy as Sy.
+    - left. congruence.
+    - right. left. rewrite Sy. exact Sb.
+    - right. right. rewrite <- Sy. exact Sa.
+    - left. subst sb. rewrite Sa in Sb. apply wrap_inj; assumption.
+  Qed.
+
+  (* ---------- C06: at most one fully signed state per version ---------- *)
+  Lemma agreement_GI s : GI s -> nowrap s ->
+    forall x y, In x (flogs s) -> In y (flogs s) -> st_ver x = st_ver y -> x = y.
+  Proof. intros G N. destruct (gi_ag s G N) as (_ & _ & _ & _ & U). exact U. Qed.
+
+  (* the ghost log is what it claims to be: every fully signed transaction a machine holds is logged *)
+  Lemma full_logged_GI s p t :
+    GI s ->
+    (staging (mc (getp s p)) = Some t \/ current (mc (getp s p)) = Some t) ->
+    all_some (tx_sigs t) = true -> In (tx_st t) (flog (getp s p)).
+  Proof.
+    intros G H A. destruct (gi_li s G p) as (c & _ & _ & Hin & L).
+    destruct H as [H|H].
+    - unfold LIc, rest in L. destruct (ctl (getp s p));
+        repeat match goal with
+               | H : exists _, _ |- _ => destruct H as [? H]
+               | H : _ /\ _ |- _ => destruct H as [H ?]
+               | H : _ \/ _ |- _ => destruct H as [H|H]
+               | H : False |- _ => elim H
+               end;
+        match goal with M : mc _ = _ |- _ => rewrite M in H; cbn [mkm staging stx] in H end;
+        try discriminate H; injection H as <-; cbn [tx_sigs tx_st] in A |- *;
+        rewrite all_some_sigs2 in A;
+        first [ discriminate A | assumption
+              | repeat match goal with o : option sigtok |- _ => destruct o end; discriminate A ].
+    - rewrite (LIc_current p _ c L) in H. injection H as <-. exact Hin.
   Qed.
 End Channel.
